@@ -21,7 +21,8 @@ buffered Go channel of capacity one — for ONE channel and TWO call records, as
 The two defects (known findings, replays `C18 liveoverlap mismatch|samekey`) are theorems here:
 `C18_live_overlap_request_lost`, `C18_live_overlap_registration_removed` (Props/C18.lean); the
 registration invariant (`reg`: joined ⇒ registered under the address held) is preserved by every step
-(`C18_live_reg_step_partial`, under a side condition on calls that wait for the slot).
+(`C18_live_reg_step_partial`) and holds in every reachable state (`C18_live_registered_while_joined`,
+invariant `LInv` of `Lemmas/MucLive.lean`).
 -/
 namespace XmppModel.MucLive
 open XmppModel.Muc (JErr JOut)
